@@ -1,7 +1,7 @@
 #!/bin/bash
 # usage: sweep.sh <tier> <seed...>  — runs every check at the given seeds, prints a summary line per run
 tier=$1; shift
-cd /verif
+cd "$(dirname "$0")/.."
 for seed in "$@"; do
   for id in $(python3 -c "import json;print(' '.join(c['property_id'] for c in json.load(open('MANIFEST.json'))['checks']))"); do
     t0=$(date +%s)
